@@ -1804,7 +1804,9 @@ def gen_restore_stmt(node, code, codegen):
     if target:
         label_index = code.get_data_label_index(target)
     else:
-        label_index = -1
+        # RESTORE without a label rewinds to the first DATA group
+        # (-1 selected the last one)
+        label_index = 0
 
     code.add(
         ('push%', label_index),
